@@ -313,4 +313,30 @@ def cliRun (decompress keep noSparse noSync : Bool) (srcMode srcUid srcGid srcAt
     src := ⟨[], srcMode, srcUid, srcGid, srcAtime, srcMtime⟩,
     success := true, chunks := chunks, procUid := procUid, destGid := destGid, now0 := 0 }
 
+/-! ## privilege situations ("owner and group are copied where permitted") -/
+
+/-- Who runs xz. `capChown` = a NON-root effective uid holding CAP_CHOWN (+ CAP_FOWNER), e.g. through ambient or file
+    capabilities; `groupMember` = an ordinary user who is a member of the source file's group. -/
+inductive Priv where
+  | root | capChown | plain | groupMember
+  deriving DecidableEq, Repr, Inhabited
+
+def Priv.ofCode : Nat → Priv
+  | 0 => .root | 1 => .capChown | 2 => .plain | _ => .groupMember
+
+/-- chown(2): giving a file to another uid needs uid 0 or CAP_CHOWN; "changing" it to its present owner is allowed. -/
+def ownerPermitted (p : Priv) (procUid srcUid : Nat) : Bool :=
+  p == .root || p == .capChown || procUid == srcUid
+
+/-- chown(2): the owner of a file may change its group to a group he is a member of; otherwise uid 0 / CAP_CHOWN. -/
+def groupPermitted (p : Priv) (procGid srcGid : Nat) : Bool :=
+  p == .root || p == .capChown || p == .groupMember || procGid == srcGid
+
+/-- `cliRun` with the results of the two fchown calls decided by the privilege situation. `warn_fchown` is euid == 0,
+    which is `procUid == 0` (in `cliRun`): under `capChown`/`plain`/`groupMember` the euid is not 0. -/
+def privRun (p : Priv) (decompress keep noSparse noSync : Bool)
+    (srcMode srcUid srcGid srcAtime srcMtime procUid procGid : Nat) (chunks : List (List UInt8)) : Run :=
+  cliRun decompress keep noSparse noSync srcMode srcUid srcGid srcAtime srcMtime procUid procGid
+    (!ownerPermitted p procUid srcUid) (!groupPermitted p procGid srcGid) chunks
+
 end XzVerif.Attrs
